@@ -10,6 +10,8 @@
 
 #include <boost/multi/utility.hpp>
 
+#include <algorithm>  // for std::max
+
 namespace boost::multi::blas {
 
 using core::gemv;
@@ -25,11 +27,11 @@ auto gemv_n(Context ctxt, typename MIt::element a, MIt m_first, Size count, XIt 
 	assert( y_first.stride() != 0 );  // BLAS generally doesn't support stride zero
 
 	if constexpr(! is_conjugated<MIt>::value) {
-		if     (m_first .stride()==1)   {ctxt->gemv('N', count, (*m_first).size(), &a, m_first.base()            , (*m_first).stride(), x_first.base(), x_first.stride(), &b, y_first.base(), y_first.stride());}
-		else if((*m_first).stride()==1) {ctxt->gemv('T', (*m_first).size(), count, &a, m_first.base()            ,   m_first .stride(), x_first.base(), x_first.stride(), &b, y_first.base(), y_first.stride());}
+		if     (m_first .stride()==1)   {ctxt->gemv('N', count, (*m_first).size(), &a, m_first.base()            , std::max<Size>((*m_first).stride(), std::max<Size>(count, 1)), x_first.base(), x_first.stride(), &b, y_first.base(), y_first.stride());}
+		else if((*m_first).stride()==1) {ctxt->gemv('T', (*m_first).size(), count, &a, m_first.base()            , std::max<Size>(m_first.stride(), std::max<Size>((*m_first).size(), 1)), x_first.base(), x_first.stride(), &b, y_first.base(), y_first.stride());}
 		else                           {assert(0); /*throw gemv_stride_error{"not BLAS-implemented"};*/}  // LCOV_EXCL_LINE
 	} else {
-		if     ((*m_first).stride()==1) {ctxt->gemv('C', (*m_first).size(), count, &a, underlying(m_first.base()), m_first. stride(), x_first.base(), x_first.stride(), &b, y_first.base(), y_first.stride());}
+		if     ((*m_first).stride()==1) {ctxt->gemv('C', (*m_first).size(), count, &a, underlying(m_first.base()), std::max<Size>(m_first.stride(), std::max<Size>((*m_first).size(), 1)), x_first.base(), x_first.stride(), &b, y_first.base(), y_first.stride());}
 		else                           {assert(0); /*throw gemv_stride_error{"not BLAS-implemented"};*/}  // LCOV_EXCL_LINE
 	}
 
